@@ -149,6 +149,8 @@ package fsnotify
 //@   ensures TablesInv(w.watches)                                                                   [C01 C02 C04 C07 C08 C09 C12]
 //@   ensures KInv(w.watches)                                                                        [C12]
 //@   ensures (err != nil) <==> (lastWd == -1)
+//@   ensures forall(r, *watch, old(allocated(r)) ==> r.path == old(r.path) && r.recurse == old(r.recurse) && (r.wd == old(r.wd) || (r.wd == k && !has(W0, k))))     [C19 C08] "registering never renames or re-types an existing watch, and re-numbers it only to a new descriptor the kernel returned"
+//@   ensures forall(j, uint32, has(w.watches.wd, j) && has(W0, j) ==> w.watches.wd[j] == W0[j])     [C19 C04] "a descriptor that stays listed keeps its watch"
 //@   ensures err != nil ==> w.watches.wd == W0 && w.watches.path == P0                              [C04] "a failed Add leaves the set untouched"
 //@   ensures err == nil && has(W0, k) && (!has(P0, path) || P0[path] == k) ==>
 //@             w.watches.wd == W0 && w.watches.path == P0                                           [C04 C08] "adding a path whose file is already watched changes nothing (the first spelling stays)"
@@ -223,6 +225,8 @@ package fsnotify
 //@ func (w *inotify) handleEvent(inEvent *unix.InotifyEvent, buf *[65536]byte, offset uint32) (ev Event, ok bool)
 //@   requires token(sawOpen)                  [C14 C13 C06] "only an operation that has seen the Watcher open goes on to use its descriptor"
 //@   mode modeA: !enableRecurse
+//@   mode modeB: enableRecurse                    [C19]
+//@   requires modeB ==> inEvent.Mask & (unix.IN_IGNORED | unix.IN_UNMOUNT | unix.IN_DELETE_SELF | unix.IN_MOVE_SELF) == 0       [C19] "mode B (the unfinished recursive feature) is verified for notifications that do not end a watch"
 //@   requires token(reader) && nolocks() && Wf(w) && RingInv(w) && inEvent != nil && buf != nil
 //@   requires !closed(w.Errors) && !closed(w.Events)
 //@   requires offset <= 65536 - 16 && inEvent.Len <= 4096 && inEvent.Len <= 65536 - 16 - offset                      [C08] "kernel: the record lies inside the read buffer"
@@ -256,6 +260,31 @@ package fsnotify
 //@   ensures live && ok && inEvent.Cookie != 0 && mask & unix.IN_MOVED_FROM != 0 && ev.Op != 0 ==> lastFrom[inEvent.Cookie] == ev.Name   [C11] "the name of the Rename event is what a later move-in with this cookie will carry"
 //@   ensures old(dupCookie) ==> dupCookie
 //@   ensures subset(old(Pending), Pending)                                                            [C12]
+//   ---- the recursive branch (mode B, C19)
+//@   let recW = atLock(w.watches.wd[uint32(inEvent.Wd)].recurse)
+//@   let newDir = modeB && live && ok && recW && mask & gone == 0 && mask & unix.IN_ISDIR != 0 && mask & (unix.IN_CREATE | unix.IN_MOVED_TO) != 0
+//@   ensures newDir && ev.renamedFrom == "" && lastWd != -1 ==>
+//@             has(atUnlock(w.watches.path), nm) || has(W1, uint32(lastWd))                               [C19] "a directory created inside a recursive tree is itself covered when its Create is returned (or was watched already, or the failure is on Errors)"
+//@   ensures newDir && ev.renamedFrom != "" ==> forall(k, uint32, has(W1, k) && has(atUnlock(w.watches.wd), k) && k != wd && atLock(w.watches.wd[k].path) != nm ==>
+//@             atUnlock(w.watches.wd[k].path) == ite(atLock(w.watches.wd[k].path) == ev.renamedFrom || strings.HasPrefix(atLock(w.watches.wd[k].path), ev.renamedFrom + "/"),
+//@                                                   strings.Replace(atLock(w.watches.wd[k].path), ev.renamedFrom, nm, 1), atLock(w.watches.wd[k].path)))     [C19] "after a directory rename inside the tree, it and its descendants are known under the new location and every other watch keeps its name"
+//@   ensures modeB && live && !(newDir && ev.renamedFrom != "") && mask & gone == 0 ==>
+//@             forall(k, uint32, has(W1, k) && has(atUnlock(w.watches.wd), k) ==> atUnlock(w.watches.wd[k].path) == atLock(w.watches.wd[k].path))       [C19] "no other notification renames a watch"
+//@   ensures modeB ==> atUnlock(TablesInv(w.watches))                                                 [C19] "the path index follows the watches it indexes (renamed directories are listed, and removable, under their new names)"
+//@   local name string
+//@   loop 1 "for k, ww := range w.watches.wd"
+//@     invariant held(shared.mu) && Wf(w) && w.watches.wd == atLoop(w.watches.wd) && w.watches.path == atLoop(w.watches.path)
+//@     invariant forall(j, uint32, has(w.watches.wd, j) && has(W1, j) ==> w.watches.wd[j] == W1[j])    [C19] "descriptors listed since the lock was taken still name the same watch objects"
+//@     invariant forall(j, uint32, has(w.watches.wd, j) && has(W1, j) ==> atLoop(w.watches.wd[j].path) == atLock(w.watches.wd[j].path))    [C19] "and nothing before the loop renamed them"
+//@     invariant watch.wd == wd || !has(W1, watch.wd)     [C19] "the watch of the notification is still listed under its descriptor, or was moved to a new one"
+//@     invariant ev.Name == name    [C19]
+//@     invariant name == nm    [C19]
+//@     invariant forall(j, uint32, has(w.watches.wd, j) ==> w.watches.wd[j] != nil && w.watches.wd[j].wd == j)
+//@     invariant forall(j, uint32, has(w.watches.wd, j) ==> w.watches.wd[j].path ==
+//@                 ite(has(visited, j) && j != watch.wd && atLoop(w.watches.wd[j].path) != ev.Name &&
+//@                     (atLoop(w.watches.wd[j].path) == ev.renamedFrom || strings.HasPrefix(atLoop(w.watches.wd[j].path), ev.renamedFrom + "/")),
+//@                     strings.Replace(atLoop(w.watches.wd[j].path), ev.renamedFrom, ev.Name, 1), atLoop(w.watches.wd[j].path)))
+//@     invariant forall(j, uint32, has(w.watches.wd, j) ==> w.watches.wd[j].recurse == atLoop(w.watches.wd[j].recurse))
 
 //@ func (w *inotify) readEvents()
 //@   local ev Event
